@@ -164,7 +164,7 @@ pub fn check_lang(code: &str, fragmented: bool, obs: &mut Obs) -> Vec<Violation>
     use crate::exec::{run, run_frag, ExecOpts};
     obs.evaluations += 1;
     if fragmented {
-        let fc = FragCfg { vcodec: H264, width: 640, height: 480, via_builder: true, timescale: 90_000, fragment_duration_ms: 2000, sps: Some(vec![0x67, 1, 2, 3]), pps: Some(vec![0x68, 1]), vps: None, av1_seq: None, vp9: None, lang: Some(code.to_string()) };
+        let fc = FragCfg { vcodec: H264, width: 640, height: 480, via_builder: true, timescale: 90_000, fragment_duration_ms: 2000, sps: Some(vec![0x67, 1, 2, 3]), pps: Some(vec![0x68, 1]), vps: None, av1_seq: None, vp9: None, lang: Some(code.to_string()), path: 0 };
         let h = FHistory { cfg: fc, ops: vec![FOp::Init] };
         let ex = run_frag(&h, &ExecOpts::default());
         if let Some(FRes::Bytes(b)) = ex.results.first() {
@@ -196,7 +196,7 @@ pub fn check_malformed_lang(code: &str, obs: &mut Obs) -> Vec<Violation> {
     use crate::exec::{run, run_frag, ExecOpts};
     let mut out = Vec::new();
     obs.count("malformed_language_codes_tried", 1);
-    let fc = FragCfg { vcodec: H264, width: 640, height: 480, via_builder: true, timescale: 90_000, fragment_duration_ms: 2000, sps: Some(vec![0x67, 1, 2, 3]), pps: Some(vec![0x68, 1]), vps: None, av1_seq: None, vp9: None, lang: Some(code.to_string()) };
+    let fc = FragCfg { vcodec: H264, width: 640, height: 480, via_builder: true, timescale: 90_000, fragment_duration_ms: 2000, sps: Some(vec![0x67, 1, 2, 3]), pps: Some(vec![0x68, 1]), vps: None, av1_seq: None, vp9: None, lang: Some(code.to_string()), path: 0 };
     let h = FHistory { cfg: fc, ops: vec![FOp::Init] };
     let ex = run_frag(&h, &ExecOpts::default());
     if ex.build.is_panic() || ex.results.iter().any(|r| matches!(r, FRes::Panic { .. })) {
